@@ -58,13 +58,15 @@ fn ord_word(w: &str) -> String {
 }
 /// returns (words, marker)
 pub fn ordinal(n: u64, c: &mut dyn Chooser) -> (Vec<String>, String) {
+    // the inflection is always the first pick
+    let plural = c.pick(5) == 4;
     let mut w = cardinal(n, c);
     let last = w.pop().unwrap();
     let last = if ["hundreds", "thousands", "millions", "billions"].contains(&last.as_str()) { last[..last.len() - 1].to_string() } else { last };
     let (head, tail) = match last.rfind('-') { Some(i) => (last[..=i].to_string(), last[i + 1..].to_string()), None => (String::new(), last.clone()) };
     let mut o = ord_word(&tail);
     let mut marker = if o == "first" { s("st") } else if o == "second" { s("nd") } else if o == "third" { s("rd") } else { s("th") };
-    if (marker == "th" || marker == "rd") && c.pick(5) == 4 { o.push('s'); marker.push('s'); }
+    if (marker == "th" || marker == "rd") && plural { o.push('s'); marker.push('s'); }
     w.push(format!("{}{}", head, o));
     (w, marker)
 }
